@@ -359,6 +359,9 @@ def run(ck):
     exe = ck.build("asan", ["vsrv"])["vsrv"]
     thorough = ck.tier == "thorough"
     n = int((250 if thorough else 5) * ck.scale)
+    # the header tokenizer alone, every single cut: in-process, thousands of header blocks per second
+    hdr = ck.build("asan", ["hdr_mon"])["hdr_mon"]
+    sa.run_jobs(ck, [dict(exe=hdr, args=["--cases", int((60000 if thorough else 1500) * ck.scale), "--seed", sa.subseed(ck, 900 + i)], label="hdr%d" % i, timeout=7200) for i in range(4)], sets=("blocks",))
     args = [(ck.rundir, exe, sa.subseed(ck, i), n, i) for i in range(16)]
     results = run_workers(ck, worker, args)
     ck.counters["distinct_cases"] = sum(r["distinct"] for r in results)
@@ -376,4 +379,4 @@ def run(ck):
               "1-byte reads, tiny reads; echo compared with the reference mapping, across segmentations and across front-ends; HTTP keep-alive and FastCGI KEEP_CONN sequences of 2..6 pipelined requests. "
               "non-trivial = distinct (protocol, request, read-size prefix) cases",
               "cases", "distinct_cases", min_evals=3000,
-              required_nonzero=("cases_http", "cases_scgi", "cases_fastcgi", "keepalive_requests", "distinct_read_size_sequences", "split_offsets_http", "split_offsets_fastcgi"))
+              required_nonzero=("cases_http", "cases_scgi", "cases_fastcgi", "keepalive_requests", "segmentations", "blocks_complete", "distinct_read_size_sequences", "split_offsets_http", "split_offsets_fastcgi"))
